@@ -61,6 +61,7 @@ func (x *Exec) instr(fr *Frame, b *ssa.BasicBlock, st *State, ins ssa.Instructio
 		val := x.val(fr, v.Val)
 		t := pointee(v.Addr.Type())
 		x.checkNil(fr, st, addr, ins, v.Pos())
+		x.checkGuard(fr, st, addr, true, ins, v.Pos())
 		if val.Fn != nil && val.T.S == "" {
 			val.T = intLit(1)
 		}
@@ -214,6 +215,7 @@ func (x *Exec) unop(fr *Frame, st *State, v *ssa.UnOp) {
 	case token.MUL: // load
 		t := v.Type()
 		x.checkNil(fr, st, a, v, v.Pos())
+		x.checkGuard(fr, st, a, false, v, v.Pos())
 		r := x.loadPtr(st, a, t)
 		if len(r.S) > 48 {
 			r = x.define(fr.prefix+v.Name(), r)
